@@ -52,6 +52,8 @@ def evaluate(prop, cases, stats):
     spans = []
     for c in cases:
         r = prop.request(c)
+        if r is None:
+            r = []
         if isinstance(r, str):
             r = [r]
         spans.append((len(reqs), len(reqs) + len(r)))
